@@ -93,7 +93,10 @@ class Outcome:
         self.violations.append((summary, replay))
 
     def finish(self):
-        os.makedirs(EVIDENCE, exist_ok=True)
+        # X..: coverage beyond the listed properties (not in MANIFEST.json): own evidence directory, own alarm word
+        extra = self.prop.startswith("X")
+        evdir = os.path.join(VERIF, "extras", "evidence") if extra else EVIDENCE
+        os.makedirs(evdir, exist_ok=True)
         wall = time.time() - self.t0
         known = load_known()
         rc = 0
@@ -118,7 +121,7 @@ class Outcome:
             seen_paths.add(path)
             with open(path, "w") as f:
                 f.write(blob)
-            out_lines.append("VIOLATION property=%s replay=%s" % (self.prop, path))
+            out_lines.append(("DIVERGENCE extra=%s replay=%s" if extra else "VIOLATION property=%s replay=%s") % (self.prop, path))
             out_lines.append("  " + summary)
             rc = 1
         ev = {
@@ -131,7 +134,7 @@ class Outcome:
             ev["coverage"]["known_findings_hit"] = self.known_hits
         if not ev["coverage"]["samples"]:
             ev["coverage"]["samples"] = ["(no sample recorded)"]
-        with open(os.path.join(EVIDENCE, self.prop + ".json"), "w") as f:
+        with open(os.path.join(evdir, self.prop + ".json"), "w") as f:
             json.dump(ev, f, indent=1, sort_keys=True)
         for ln in out_lines:
             log(ln)
